@@ -373,6 +373,11 @@ def gen_dataset(rng, n_inputs=None, with_clim=None, missing=None, big=False):
         tpool = [base + 82800 + h * 3600 for h in range(6)]               # 23 UTC … 04 UTC across midnight
     if rng2.random() < 0.3:
         xpool = [(float(100000 + i),) + x[1:] for i, x in enumerate(xpool)]
+    if rng2.random() < 0.25:
+        # two stations with the same latitude / longitude / elevation (a valley and its neighbour): the slices of
+        # -x lat|lon|elev are still one per station
+        k = rng2.choice([1, 2, 3])
+        xpool = [x if i != 1 else x[:k] + (xpool[0][k],) + x[k + 1:] for i, x in enumerate(xpool)]
     pmiss = missing if missing is not None else rng.choice([0.0, 0.1, 0.3])
     total = n + (1 if clim else 0)
     extra_field = rng.random() < 0.4
@@ -668,8 +673,16 @@ def impl_hist(op):
     """datahist …: the requests are issued one after the other on ONE Data object.  After every step all arrays
     returned so far are re-read (retroactive change), at the end every request is repeated on a freshly built
     Data (history dependence) and the inputs' arrays are compared with their initial copies."""
-    ds, reqs = dec_op(" ".join(["data"] + op.split(" ")[1:]))
-    with warnings.catch_warnings():
+    parts = op.split(" ")
+    consumers = None
+    if parts[0] == "datahistc":
+        # the real consumers of get_scores — the score classes — run between the requests: they are handed the arrays
+        # the cache holds and must treat them as read-only
+        import random as _random
+        consumers = _random.Random(int(parts[1]))
+        parts = parts[:1] + parts[2:]
+    ds, reqs = dec_op(" ".join(["data"] + parts[1:]))
+    with warnings.catch_warnings(), np.errstate(all="ignore"):
         warnings.simplefilter("ignore")
         try:
             ins_before = None
@@ -688,6 +701,8 @@ def impl_hist(op):
                 break
             returned.append((res, [np.array(a, float).copy() for a in res]))
             out.append(";".join(xvec(np.array(o, float).flatten()) for o in res))
+            if consumers is not None:
+                run_consumers(data, r, consumers)
             for j, (live, copy_) in enumerate(returned[:-1]):
                 for a, b in zip(live, copy_):
                     if not np.array_equal(np.array(a, float), b, equal_nan=True):
@@ -705,6 +720,38 @@ def impl_hist(op):
                 if not np.array_equal(x, y, equal_nan=True):
                     flags.append("INPUTMUT")
         return " | ".join(out + sorted(set(flags)))
+
+
+_CONSUMERS = None
+
+
+def run_consumers(data, req, rng, count=12):
+    """evaluate a few real score classes on the slice of the request just made (same input / axis / index, which is
+    how the command line walks a Data object); their values are not looked at here (C05-C08 do that)"""
+    global _CONSUMERS
+    import verif.metric
+    import verif.interval
+    if _CONSUMERS is None:
+        _CONSUMERS = []
+        for name, cls in verif.metric.get_all():
+            try:
+                m = cls()
+            except Exception:
+                continue
+            if isinstance(m, (verif.metric.ObsFcstBased, verif.metric.Contingency, verif.metric.FromField)) \
+                    or name.lower() in ("pit", "pithistdev", "pithistslope", "pithistshape"):
+                _CONSUMERS.append(m)
+    f, i, ax, idx = req
+    axis = axis_obj(ax)
+    if ax == "all":
+        return
+    for m in rng.sample(_CONSUMERS, min(count, len(_CONSUMERS))):
+        lo = rng.choice([0.0, 0.5, 1.0])
+        iv = verif.interval.Interval(lo, lo + rng.choice([0.5, 1.0, 2.0]), rng.random() < 0.5, rng.random() < 0.5)
+        try:
+            m.compute_single(data, i, axis, idx, iv)
+        except (SystemExit, Exception):      # noqa: a score that does not apply to this dataset is not the subject here
+            pass
 
 
 # ------------------------------------------------------------------ climatology as extra input (C14)
